@@ -613,8 +613,66 @@ func contourWords(c []ipt, j uint) string {
 	return strings.Join(parts, " ")
 }
 
+// genBoundsDouble makes a line of kind pd: contours whose coordinates are so large or so mixed in magnitude that the 1 of
+// Width = 1+max-min is absorbed by rounding — the domain of the guarded branch of `extent` (Nextafter search, at most 4
+// widenings) — next to ordinary fractional ones.  IEEE bit patterns; the model runs the source form of Bounds at Lean's Float.
+func genBoundsDouble(r *hx.Rng) string {
+	huge := []float64{0x1p53, 0x1p53 + 2, 0x1p54, 0x1p60, 1e16, 1e17, 1e20, 1e100, 1e150, 1e300, 8e307, 1.7e308, math.MaxFloat64,
+		16777216, 3e7, 0x1p52, 0x1p52 + 0.5, 4.5e15}
+	coord := func(base float64) float64 {
+		switch r.Intn(8) {
+		case 0:
+			return fspecCoord(r)
+		case 1:
+			return float64(r.Range(-100, 100)) / 10
+		case 2: // the base moved by a few ulps
+			v := base
+			for k := r.Intn(5); k > 0; k-- {
+				v = math.Nextafter(v, math.Inf(1-2*r.Intn(2)))
+			}
+			return v
+		case 3:
+			return -base
+		case 4:
+			return base / float64(r.Range(2, 9))
+		default:
+			return base + float64(r.Range(-1000, 1000))/10
+		}
+	}
+	op := "cbounds"
+	nc := 1
+	if r.Chance(1, 3) {
+		op, nc = "pbounds", r.Range(1, 3)
+	}
+	var sb strings.Builder
+	sb.WriteString("pd " + op)
+	for k := 0; k < nc; k++ {
+		base := hx.Pick(r, huge) * float64(1-2*r.Intn(2))
+		if r.Chance(1, 6) {
+			base = float64(r.Range(-50, 50))
+		}
+		sb.WriteString(" |")
+		nv := r.Range(0, 5)
+		if r.Chance(1, 6) {
+			nv = 1
+		}
+		for v := 0; v < nv; v++ {
+			bx, by := base, base
+			if r.Chance(1, 3) { // the other axis ordinary, or of another magnitude
+				by = hx.Pick(r, huge)
+			}
+			sb.WriteString(" " + b64(coord(bx)) + " " + b64(coord(by)))
+		}
+	}
+	return sb.String()
+}
+
 func (polyArea) Gen(r *hx.Rng, n int, _ string, emit func(string)) {
 	for i := 0; i < n; i++ {
+		if r.Chance(1, 8) {
+			emit(genBoundsDouble(r))
+			continue
+		}
 		op := hx.Pick(r, []string{"ccontains", "ccontains", "ccontains", "cbounds", "pcontains", "pevenodd", "pevenodd", "pbounds", "ptransform",
 			"ccontains", "ccontains", "ccontains", "cbounds", "pcontains", "pevenodd", "pevenodd", "pbounds", "ptransform", "pempty", "pclone", "cclone"})
 		nc := 1
@@ -708,8 +766,47 @@ func polyStr(p poly.Polygon[float64]) string {
 	return strings.Join(parts, " | ")
 }
 
+// runBoundsDouble executes a pd line: Contour.Bounds / Polygon.Bounds on float64 bit patterns, answered as bit patterns
+func runBoundsDouble(f []string) string {
+	if len(f) < 2 {
+		return "bad-op"
+	}
+	groups := splitBar(f[2:])
+	if len(groups[0]) != 0 {
+		return "bad-op"
+	}
+	p := make(poly.Polygon[float64], 0, len(groups)-1)
+	for _, g := range groups[1:] {
+		if len(g)%2 != 0 {
+			return "bad-op"
+		}
+		var c poly.Contour[float64]
+		for k := 0; k+1 < len(g); k += 2 {
+			x, e1 := strconv.ParseUint(g[k], 16, 64)
+			y, e2 := strconv.ParseUint(g[k+1], 16, 64)
+			if e1 != nil || e2 != nil {
+				return "bad-op"
+			}
+			c = append(c, geom.NewPoint(math.Float64frombits(x), math.Float64frombits(y)))
+		}
+		p = append(p, c)
+	}
+	switch {
+	case f[1] == "cbounds" && len(p) == 1:
+		b := p[0].Bounds()
+		return joinBits(b.X, b.Y, b.Width, b.Height)
+	case f[1] == "pbounds":
+		b := p.Bounds()
+		return joinBits(b.X, b.Y, b.Width, b.Height)
+	}
+	return "bad-op"
+}
+
 func (polyArea) Run(line string) string {
 	f := strings.Fields(line)
+	if len(f) >= 2 && f[0] == "pd" {
+		return runBoundsDouble(f)
+	}
 	if len(f) < 2 || f[0] != "poly" {
 		return "bad-op"
 	}
